@@ -19,7 +19,9 @@
      7  unknown method / other handler error did not arrive as the application exception (oracle)
     10  a message was not consumed completely (request by the processor, reply by the client)
                                                                                    (oracle)
-    11  an inherited method was not dispatched                                     (oracle)   *)
+    11  an inherited method was not dispatched                                     (oracle)
+    12  the generated processor's map is not keyed by exactly the IDL names of the functions the
+        service keeps (functions annotated streaming.mode are removed), own and inherited (oracle)   *)
 From Coq Require Import List ZArith Bool NArith Lia.
 From Verif Require Import Base.Bytes Base.BE Wire.TType Wire.WVal Wire.Codec Wire.Schema Wire.Value Wire.Std
   Wire.Rpc Corr.C02.
@@ -44,7 +46,8 @@ Record call_out := mkco {
 
 Inductive case :=
 | CSeq (csvc psvc : bytes) (ins : list call_in) (outs : list call_out)
-| CRaw (psvc : bytes) (req : bytes) (oc : outcome) (reply : bytes) (log : list (bytes * bytes * list value)).
+| CRaw (psvc : bytes) (req : bytes) (oc : outcome) (reply : bytes) (log : list (bytes * bytes * list value))
+| CNames (psvc : bytes) (names : list bytes).     (* keys of the generated processor's map *)
 
 (* ---- lookups ---- *)
 
@@ -240,6 +243,16 @@ Definition check (E : env) (ss : list service) (c : case) : list N :=
               | Some m => if fn_oneway (snd m) then match reply with [] => [] | _ => [6%N] end else []
               | None => [] end
           | None => [] end
+      | None => [8%N]
+      end
+  | CNames psvc names =>
+      (* 12: the processor's map is not keyed by exactly the IDL names of the functions the service
+             keeps (streaming functions removed), own and inherited *)
+      match table_of ss psvc with
+      | Some ptbl =>
+          let expect := map (fun m : method => fn_name (snd m)) ptbl in
+          if forallb (fun n => existsb (beqb n) names) expect &&
+             forallb (fun n => existsb (beqb n) expect) names then [] else [12%N]
       | None => [8%N]
       end
   end.
